@@ -1,6 +1,8 @@
 """C01 - flatten then unflatten reconstructs the same tree."""
 from __future__ import annotations
 
+import collections
+
 import optree
 
 from vf import gen, harness, refmodel, same
@@ -47,7 +49,12 @@ def check_case(sink, c, o):  # noqa: C901
             return
         d = same.diff(c.tree, rebuilt, leaf_ids=leaf_ids)
         sink.check(d is None, 'roundtrip/not-same', 'unflatten(flatten(t)) is the same tree', ident, d)
-        rebuilt_b = optree.tree_unflatten(spec, iter(leaves))
+        # the leaves handed over in another kind of iterable (rotating through the cases)
+        form = ('iterator', 'tuple', 'generator', 'deque', 'dict-values')[c.index % 5]
+        as_given = {'iterator': lambda: iter(leaves), 'tuple': lambda: tuple(leaves), 'generator': lambda: (x for x in leaves), 'deque': lambda: collections.deque(leaves),
+                    'dict-values': lambda: dict(enumerate(leaves)).values()}[form]()
+        rebuilt_b = optree.tree_unflatten(spec, as_given)
+        sink.count(f'leaves-given-as:{form}')
         d = same.diff(c.tree, rebuilt_b, leaf_ids=leaf_ids)
         sink.check(d is None, 'roundtrip/tree_unflatten-not-same', 'tree_unflatten(spec, iter(leaves)) is the same tree', ident, d)
         # 1b. the treespec returned by every other flatten entry point rebuilds the tree just the same
@@ -55,6 +62,15 @@ def check_case(sink, c, o):  # noqa: C901
                                    ('tree_structure', (leaves, optree.tree_structure(c.tree, **kw)))):
             d = same.diff(c.tree, sp_x.unflatten(iter(lv_x)), leaf_ids=leaf_ids)
             sink.check(d is None, f'roundtrip/{name}', f'unflattening the treespec returned by {name} with its leaves is the same tree', ident, d)
+        # 1c. the same container object sitting at two places of a tree
+        if c.index % 6 == 0 and not isinstance(c.tree, U.Leaf):
+            twice = (c.tree, c.tree, (c.tree,))
+            ref_t = refmodel.flatten(twice, o.ref())
+            lv_t, sp_t = optree.tree_flatten(twice, **kw)
+            ok_t = len(lv_t) == len(ref_t.leaves) and all(a is b for a, b in zip(lv_t, ref_t.leaves))
+            d = same.diff(twice, sp_t.unflatten(lv_t), leaf_ids={id(x) for x in ref_t.leaves}) if ok_t else 'leaves of a tree that contains one container several times differ from the reference'
+            sink.check(d is None, 'roundtrip/shared-container', 'a container object occurring twice in the tree is flattened twice and rebuilt at both places', ident, d)
+            sink.count('shared-container-cases')
         # 2. re-flatten
         leaves2, spec2 = optree.tree_flatten(rebuilt, **kw)
         ok = len(leaves2) == len(leaves) and all(a is b for a, b in zip(leaves, leaves2))
@@ -112,5 +128,8 @@ def run_shard(sink, tier, seed, shard):
 
 def finalize(sink, tier, seed):
     sink.require('oracle:unflatten(flatten(t)) is the same tree')
+    sink.require('shared-container-cases', 100)
+    for form in ('iterator', 'tuple', 'generator', 'deque', 'dict-values'):
+        sink.require(f'leaves-given-as:{form}', 100)
     for h in ('delete+reinsert', 'move_to_end', 'deque-rotate-at-maxlen', 'defaultdict-autoinsert'):
         sink.require(f'history:{h}')
